@@ -189,6 +189,23 @@ Proof.
     rewrite Hm. rewrite (IH t1 (nms ++ [n]) t' H); [now rewrite <- app_assoc | now rewrite <- app_assoc].
 Qed.
 
+(* a rejected batch leaves registered exactly the components that precede the offending one; an accepted batch, all *)
+Lemma add_flat_prefix_spec l cs : forall t nms, exists k, add_flat_prefix layers l t nms cs = nms ++ names (firstn k cs).
+Proof.
+  induction cs as [|[n d] r IH]; intros t nms; cbn [add_flat_prefix].
+  - exists O. simpl. now rewrite app_nil_r.
+  - destruct (update layers t d (Some l) n) as [t'|e]; [|exists O; simpl; now rewrite app_nil_r].
+    destruct (zmem n nms); [exists O; simpl; now rewrite app_nil_r|].
+    destruct (IH t' (nms ++ [n])) as [k Hk]. exists (S k). rewrite Hk. unfold names. simpl. now rewrite <- app_assoc.
+Qed.
+Lemma add_flat_prefix_ok l cs : forall t nms t' nms', add_flat layers l t nms cs = Ok (t', nms') ->
+  add_flat_prefix layers l t nms cs = nms'.
+Proof.
+  induction cs as [|[n d] r IH]; intros t nms t' nms' H; cbn [add_flat add_flat_prefix] in *.
+  - now inversion H.
+  - destruct (update layers t d (Some l) n) as [t1|e]; [|discriminate]. destruct (zmem n nms); [discriminate|]. eauto.
+Qed.
+
 Lemma add_flat_not_oof l cs : forall t nms, add_flat layers l t nms cs <> OutOfFuel.
 Proof.
   induction cs as [|[n d] r IH]; intros t nms; cbn [add_flat]; [discriminate|].
